@@ -52,7 +52,11 @@ class CallMixin:
         if k not in cache:
             fake = type("F", (), {})()
             fake.module = func.module; fake.qualname = func.qualname; fake.file = func.file; fake.cls = func.cls
-            cache[k] = self.ev(expr, {PC: False, LT: False}, Frame(fake, ()))
+            v = self.ev(expr, {PC: False, LT: False}, Frame(fake, ()))
+            if v.types & {"list", "dict", "set"}:
+                # a mutable default is created once and shared by every call: module-level state
+                v = replace(v, org=frozenset({("global", 0)}))
+            cache[k] = v
         return cache[k]
 
     def bind(self, func: FuncInfo, pos, kw, star, dstar):
@@ -149,6 +153,8 @@ class CallMixin:
         if isinstance(f, ast.Attribute):
             recv = self.ev(f.value, env, frame)
             pos, kw, star, dstar = self.eval_args(node, env, frame)
+            if self._strict_bottom(pos, kw, star, dstar):
+                return BOTTOM
             return self.call_method(recv, f.attr, pos, kw, star, dstar, node, env, frame)
         if isinstance(f, ast.Name) and f.id not in env:
             h = getattr(self, "b_" + f.id, None)
@@ -157,7 +163,13 @@ class CallMixin:
                 return h(node, env, frame)
         fv = self.ev(f, env, frame)
         pos, kw, star, dstar = self.eval_args(node, env, frame)
+        if self._strict_bottom(pos, kw, star, dstar):
+            return BOTTOM
         return self.call_value(fv, pos, kw, star, dstar, node, env, frame)
+
+    def _strict_bottom(self, pos, kw, star, dstar):
+        """Strict evaluation: when an argument never yields a value the call does not happen."""
+        return any(v.is_bottom for v in pos) or any(v.is_bottom for v in kw.values()) or (star is not None and star.is_bottom) or (dstar is not None and dstar.is_bottom)
 
     def call_value(self, fv: AVal, pos, kw, star, dstar, node, env, frame):
         outs = []
